@@ -1,4 +1,184 @@
-import AdfModel.Api
+/-
+  C03 — On-disk format conformance: the codecs.
+  Model: AdfModel/Basic.lean (big-endian words), AdfModel/Blocks.lean (block images, checksums, the typed write
+  functions that force type / secType / self-describing fields).
+  Theorems: (1) the byte <-> word codec of a 512-byte block is a bijection; (2) the checksum the write functions
+  store is the one the read functions recompute (and makes the words of the block sum to zero mod 2^32, which is
+  the format's definition); (3) each typed write function stores the type / secondary type / fixed fields the
+  format prescribes, whatever the caller left in the structure.
+  NOT proved (MANIFEST): that every image a history produces is well-formed; decided on explored histories
+  by the independent decoder tools/fsck.py (validated on five AmigaDOS-made images).
+-/
+import AdfProofs.BitmapLemmas
 namespace Adf.C03
-theorem C03_placeholder : True := trivial
+open Adf
+
+/-- (1a) decoding the encoding of 32-bit words gives the words back -/
+theorem C03_words_roundtrip (ws : List Nat) (h : ∀ w ∈ ws, w < 4294967296) : wordsOf (bytesOfWords ws) = ws :=
+  wordsOf_bytesOfWords ws h
+
+theorem be32_unbe32 (a b c d : UInt8) : be32 (unbe32 a b c d) = [a, b, c, d] := by
+  have ha := a.toNat_lt; have hb := b.toNat_lt; have hc := c.toNat_lt; have hd := d.toNat_lt
+  unfold be32 unbe32
+  have e0 : (a.toNat * 16777216 + b.toNat * 65536 + c.toNat * 256 + d.toNat) / 16777216 % 256 = a.toNat := by omega
+  have e1 : (a.toNat * 16777216 + b.toNat * 65536 + c.toNat * 256 + d.toNat) / 65536 % 256 = b.toNat := by omega
+  have e2 : (a.toNat * 16777216 + b.toNat * 65536 + c.toNat * 256 + d.toNat) / 256 % 256 = c.toNat := by omega
+  have e3 : (a.toNat * 16777216 + b.toNat * 65536 + c.toNat * 256 + d.toNat) % 256 = d.toNat := by omega
+  rw [e0, e1, e2, e3]
+  simp
+
+/-- (1b) encoding the decoding of a byte string whose length is a multiple of 4 gives the bytes back -/
+theorem C03_bytes_roundtrip : ∀ (n : Nat) (bs : Bytes), bs.length = 4 * n → bytesOfWords (wordsOf bs) = bs := by
+  intro n
+  induction n with
+  | zero => intro bs h; have : bs = [] := List.eq_nil_of_length_eq_zero (by omega); subst this; rfl
+  | succ n ih =>
+    intro bs h
+    match bs, h with
+    | a :: b :: c :: d :: rest, h =>
+      simp only [wordsOf, bytesOfWords, be32_unbe32]
+      rw [ih rest (by simp at h; omega)]
+      rfl
+
+/-- a block read from the device and written back unchanged is byte-identical -/
+theorem C03_block_roundtrip (bs : Bytes) (h : bs.length = 512) : bytesOfBlk (blkOfBytes bs) = bs := by
+  unfold bytesOfBlk blkOfBytes
+  have hp : padTo bs 512 = bs := by
+    unfold padTo
+    rw [List.take_append_of_le_length (by omega), List.take_of_length_le (by omega)]
+  rw [hp]
+  exact C03_bytes_roundtrip 128 bs (by omega)
+
+/-- every encoded block image of 128 words is exactly 512 bytes -/
+theorem C03_block_length (b : Blk) (h : b.length = 128) : (bytesOfBlk b).length = 512 := by
+  unfold bytesOfBlk; rw [bytesOfWords_length, h]
+
+/-! (2) checksums -/
+
+theorem sumSkip_lt (ws : List Nat) (i k : Nat) : sumSkip ws i k < 4294967296 := by
+  cases ws with
+  | nil => simp [sumSkip]
+  | cons w ws => rw [sumSkip]; exact Nat.mod_lt _ (by decide)
+
+/-- the checksum does not depend on what is stored in the checksum field itself -/
+theorem sumSkip_set_skip (ws : List Nat) : ∀ (i j v : Nat), sumSkip (ws.set j v) i (i + j) = sumSkip ws i (i + j) := by
+  induction ws with
+  | nil => intro i j v; rfl
+  | cons w ws ih =>
+    intro i j v
+    cases j with
+    | zero => simp [sumSkip]
+    | succ j =>
+      simp only [List.set_cons_succ, sumSkip]
+      have : i + (j + 1) = (i + 1) + j := by omega
+      rw [this, ih (i + 1) j v]
+
+theorem C03_checksum_verifies (b : Blk) (k : Nat) (hk : k < b.length) :
+    normalSum (withSum b k) k = (withSum b k).w k := by
+  unfold withSum
+  have h1 : normalSum (b.setW k (normalSum b k)) k = normalSum b k := by
+    unfold normalSum Blk.setW
+    have := sumSkip_set_skip b 0 k (normalSum b k % 4294967296)
+    simp only [Nat.zero_add] at this
+    unfold normalSum at this
+    rw [this]
+  rw [h1]
+  have hlt : normalSum b k < 4294967296 := by unfold normalSum; exact Nat.mod_lt _ (by decide)
+  exact (Blk.w_setW_same b k _ hk hlt).symm
+
+/-- sum of all words from index i on -/
+def sumAll : List Nat → Nat
+  | [] => 0
+  | w :: ws => (w + sumAll ws) % 4294967296
+
+theorem sumAll_lt (ws : List Nat) : sumAll ws < 4294967296 := by
+  cases ws with
+  | nil => simp [sumAll]
+  | cons w ws => rw [sumAll]; exact Nat.mod_lt _ (by decide)
+
+/-- once the skipped index lies behind, nothing is left out any more -/
+theorem sumSkip_past (l : List Nat) : ∀ (i k : Nat), k < i → sumSkip l i k = sumAll l := by
+  induction l with
+  | nil => intro i k _; rfl
+  | cons x l ih =>
+    intro i k h
+    have hne : i ≠ k := by omega
+    simp only [sumSkip, sumAll, hne, ↓reduceIte]
+    rw [ih (i + 1) k (by omega)]
+
+theorem sumAll_set (ws : List Nat) : ∀ (i j v : Nat), j < ws.length → v < 4294967296 →
+    sumAll (ws.set j v) = (sumSkip ws i (i + j) + v) % 4294967296 := by
+  induction ws with
+  | nil => intro i j v h; simp at h
+  | cons w ws ih =>
+    intro i j v hj hv
+    cases j with
+    | zero =>
+      simp only [List.set_cons_zero, sumAll, sumSkip, Nat.add_zero, ↓reduceIte, Nat.zero_add]
+      rw [sumSkip_past ws (i + 1) i (by omega)]
+      have := sumAll_lt ws
+      omega
+    | succ j =>
+      have hne : i ≠ i + (j + 1) := by omega
+      simp only [List.set_cons_succ, sumAll, sumSkip, hne, ↓reduceIte]
+      have e : i + (j + 1) = (i + 1) + j := by omega
+      rw [ih (i + 1) j v (by simpa using hj) hv, e]
+      have := sumSkip_lt ws (i + 1) (i + 1 + j)
+      omega
+
+/-- (2b) with the stored checksum, all words of the block sum to zero modulo 2^32 — the format's definition of a
+    valid header / extension / data / cache block checksum (and, with field 0, of a bitmap page) -/
+theorem C03_checksum_zero_sum (b : Blk) (k : Nat) (hk : k < b.length) : sumAll (withSum b k) = 0 := by
+  unfold withSum Blk.setW
+  have hlt : normalSum b k % 4294967296 < 4294967296 := Nat.mod_lt _ (by decide)
+  have := sumAll_set b 0 k (normalSum b k % 4294967296) hk hlt
+  simp only [Nat.zero_add] at this
+  rw [this]
+  unfold normalSum
+  have := sumSkip_lt b 0 k
+  omega
+
+/-! (3) the typed write functions force the fields the format prescribes -/
+
+theorem setW_chain_get (b : Blk) (i v : Nat) (hi : i < b.length) : (b.setW i v).w i = v % 4294967296 := by
+  unfold Blk.w Blk.setW
+  simp [List.getD_eq_getElem?_getD, hi]
+
+/-- a root block is always written as T_HEADER / ST_ROOT with hash table size 72 and zero header key, high seq,
+    first data, next-same-hash and parent -/
+theorem C03_root_fixed (r : Blk) (h : r.length = 128) :
+    let r' := rootFixed r
+    r'.w F_type = T_HEADER ∧ r'.w F_headerKey = 0 ∧ r'.w F_highSeq = 0 ∧ r'.w F_dataSize = 72 ∧
+    r'.w F_firstData = 0 ∧ r'.w F_nextSameHash = 0 ∧ r'.w F_parent = 0 ∧ r'.w F_secType = ST_ROOT := by
+  simp only [rootFixed, F_type, F_headerKey, F_highSeq, F_dataSize, F_firstData, F_nextSameHash, F_parent, F_secType,
+    T_HEADER, ST_ROOT]
+  refine ⟨?_, ?_, ?_, ?_, ?_, ?_, ?_, ?_⟩ <;>
+  · simp [Blk.w, Blk.setW, List.getD_eq_getElem?_getD, List.getElem?_set, h]
+
+theorem C03_dir_fixed (d : Blk) (h : d.length = 128) :
+    let d' := dirFixed d
+    d'.w F_type = T_HEADER ∧ d'.w F_highSeq = 0 ∧ d'.w F_dataSize = 0 ∧ d'.w F_secType = ST_DIR := by
+  simp only [dirFixed, F_type, F_highSeq, F_dataSize, F_secType, T_HEADER, ST_DIR]
+  refine ⟨?_, ?_, ?_, ?_⟩ <;>
+  · simp [Blk.w, Blk.setW, List.getD_eq_getElem?_getD, List.getElem?_set, h]
+
+theorem C03_fileHdr_fixed (f : Blk) (h : f.length = 128) :
+    let f' := fileHdrFixed f
+    f'.w F_type = T_HEADER ∧ f'.w F_dataSize = 0 ∧ f'.w F_secType = ST_FILE := by
+  simp only [fileHdrFixed, F_type, F_dataSize, F_secType, T_HEADER, ST_FILE]
+  refine ⟨?_, ?_, ?_⟩ <;>
+  · simp [Blk.w, Blk.setW, List.getD_eq_getElem?_getD, List.getElem?_set, h]
+
+theorem C03_fileExt_fixed (f : Blk) (h : f.length = 128) :
+    let f' := fileExtFixed f
+    f'.w F_type = T_LIST ∧ f'.w F_secType = ST_FILE ∧ f'.w F_dataSize = 0 ∧ f'.w F_firstData = 0 := by
+  simp only [fileExtFixed, F_type, F_dataSize, F_secType, F_firstData, T_LIST, ST_FILE]
+  refine ⟨?_, ?_, ?_, ?_⟩ <;>
+  · simp [Blk.w, Blk.setW, List.getD_eq_getElem?_getD, List.getElem?_set, h]
+
+/-- witness: a concrete (short) word list: the stored checksum verifies and zero-sums -/
+example : let b : Blk := [2, 882, 0, 0, 0, 0, 7, 4294967295]
+          normalSum (withSum b 5) 5 = (withSum b 5).w 5 ∧ sumAll (withSum b 5) = 0 := by
+  decide
+
 end Adf.C03
